@@ -41,6 +41,10 @@ INSTANCES = {
     # a solvent container used, changed, and used again (depth 3, a dozen solution requests, one transfer)
     "LabSOL2": dict(module="MC_Lab", consts=dict(Subst="Subst5", Names="SOL_Names", Shape="SOL_Shape", InitVes="SOL_Init",
                                                  Forms="SOL2_Forms", Fracs="HalfOnly", TUnits="Litres", SolCases="SOL2_Cases"), den_bound=4000),
+    # a stock changed by a transfer, a top-up or an earlier withdrawal, then diluted as requested (depth 2)
+    "LabSOL3": dict(module="MC_Lab", consts=dict(Subst="Subst5", Names="SOL_Names", Shape="SOL_Shape", InitVes="SOL_Init",
+                                                 Forms="SOL3_Forms", Fracs="HalfOnly", TUnits="Litres", FillCases="SOL3_Fill",
+                                                 FillDeltas="TwoOnly", FromCases="SOL3_From"), den_bound=4000),
 }
 
 
